@@ -44,6 +44,9 @@ def base_result(tape, out=None, viol=None, **kw):
     r.update(kw)
     if r["viol"]:
         r["tape"] = tape.snapshot()
+        for k, v in (tape.preset or {}).items():
+            if k.startswith("@"):
+                r["tape"][k] = v
     return r
 
 
@@ -109,6 +112,9 @@ def run_single(prop, seed, preset, want_case, schema_knobs=None, doc_knobs=None,
     r["_plan"] = plan
     r["_case"] = case
     r["_out"] = out
+    if viol:
+        from simv.model.document import doc_to_json
+        r["doc_model"] = doc_to_json(case.doc)
     if want_case or viol:
         c = case.render()
         c["engine_config"] = cfg
